@@ -873,7 +873,7 @@ class C07(Prop):
                "call co o3 nosuch", "call co o3 g0"]
         return [p0, p1, p2, p3, names] + seq
 
-    def gen_graph(self, rng):
+    def gen_graph(self, rng, allow_empty=True):
         n = rng.weighted([(2, 2), (3, 4), (4, 5), (5, 4), (6, 2), (7, 1)])
         g = {}
         order = []
@@ -906,7 +906,7 @@ class C07(Prop):
             # one program in six defines NO function at all (variables only, possibly only prototypes): as an inherit it
             # contributes no runtime slot and shares its function_index_offset with the next inherit; one in eight has only
             # private / static functions
-            ndef = 0 if (n > 1 and rng.chance(1, 6)) else rng.range(1, min(4, len(fpool)))
+            ndef = 0 if (allow_empty and n > 1 and rng.chance(1, 6)) else rng.range(1, min(4, len(fpool)))
             only_hidden = rng.chance(1, 8)
             mine = sorted(rng.shuffle(fpool)[:ndef], key=fnum)
             for fn in mine:
@@ -957,7 +957,13 @@ class C07(Prop):
         return g, order, fpool
 
     def gen_case(self, rng, cid):
-        g, order, fpool = self.gen_graph(rng)
+        # one case in five saves its programs as binaries and reloads everything in the middle of the history, with the
+        # function names re-created in a random address order.  Those cases have no function-less programs: saving / loading
+        # the binary of a program without any function makes locate_out / locate_in (binaries.c) do pointer arithmetic on
+        # a NULL area pointer, which UBSan reports (`pointer index expression ... overflowed`) - save_binary's subject (C17),
+        # noted in notes/C07.md, not a dispatch question
+        savebin = rng.chance(1, 5)
+        g, order, fpool = self.gen_graph(rng, allow_empty=not savebin)
         lines = [g[n].line() for n in order]
         extra = ["nosuch", "f9"]
         lines.append("names " + " ".join(fpool + extra + [x for x in ("heart_beat", "create") if x not in fpool]))
@@ -971,9 +977,6 @@ class C07(Prop):
             objs.append(oid)
             lines.append("ld %s %s" % (oid, p))
         lines.append("dump " + " ".join(objs))
-        # one case in five saves its programs as binaries and reloads everything in the middle of the history, with the
-        # function names re-created in a random address order
-        savebin = rng.chance(1, 5)
         reload_at = -1
         if savebin:
             lines.insert(0, "savebin")
